@@ -9,6 +9,7 @@ def run(ctx):
     store.rule_label_store_arithmetic(ctx)
     store.rule_attack_ops(ctx)
     store.rule_index_pairing(ctx)
+    store.rule_attack_orientation(ctx)
     store.rule_error_before_mutation(ctx)
     store.rule_idempotent_insertions(ctx)
     store.rule_iterators_filter(ctx)
